@@ -28,8 +28,8 @@ def tasks(tier, seed):
 
 def check_one(ctx, props, body_size, channel):
     p = lib.pamqp()
-    case = {'props': tojson(props), 'body_size': body_size,
-            'channel': channel}
+    case = corpus.case_mark({'props': tojson(props), 'body_size': body_size,
+                             'channel': channel})
     fp = 'header|{}|{}|{}'.format(body_size, channel, short(props, 400))
     try:
         obj = corpus.construct_header(props, body_size)
@@ -116,9 +116,14 @@ def run(task, ctx):
         ctx.case(key, not trivial, sample=lambda: {
             'props': short(props, 200), 'body_size': size,
             'channel': channel})
+        if ctx.evaluations % 29 == 0:
+            corpus.disturb()     # explore from a non-initial state too
+            corpus.DISTURBED = True
+            ctx.count('disturbed')
         check_one(ctx, props, size, channel)
 
 
 def replay(case, ctx):
+    corpus.replay_prepare(case)
     check_one(ctx, fromjson(case['props']), case['body_size'],
               case['channel'])
